@@ -230,6 +230,16 @@ class Hoist(ast.NodeTransformer):
     visit_AsyncFunctionDef = visit_FunctionDef
 
 
+class TdGet(ast.NodeTransformer):
+    """td["key"] (read)  ->  td.get("key")   for the TensorDict parameter named `td`"""
+
+    def visit_Subscript(self, node):
+        self.generic_visit(node)
+        if isinstance(node.ctx, ast.Load) and isinstance(node.value, ast.Name) and node.value.id == "td" and isinstance(node.slice, ast.Constant) and isinstance(node.slice.value, str):
+            return ast.Call(func=ast.Attribute(value=ast.Name(id="td", ctx=ast.Load()), attr="get", ctx=ast.Load()), args=[node.slice], keywords=[])
+        return node
+
+
 class Yoda(ast.NodeTransformer):
     MIRROR = {ast.Lt: ast.Gt, ast.Gt: ast.Lt, ast.LtE: ast.GtE, ast.GtE: ast.LtE, ast.Eq: ast.Eq, ast.NotEq: ast.NotEq}
 
@@ -280,7 +290,7 @@ class TorchFn(ast.NodeTransformer):
         return node
 
 
-TRANSFORMS = {"demorgan": DeMorgan, "ifswap": IfSwap, "torchfn": TorchFn, "rename": Renamer, "size": SizeCall, "shape": ShapeIndex, "yoda": Yoda, "commute": Commute, "dimkw": DimKw, "unelse": UnElse, "tempret": TempReturn, "counter": CounterAssign, "hoist": Hoist, "format": None}
+TRANSFORMS = {"demorgan": DeMorgan, "ifswap": IfSwap, "torchfn": TorchFn, "rename": Renamer, "size": SizeCall, "shape": ShapeIndex, "yoda": Yoda, "commute": Commute, "dimkw": DimKw, "unelse": UnElse, "tempret": TempReturn, "counter": CounterAssign, "hoist": Hoist, "tdget": TdGet, "format": None}
 
 
 
@@ -314,7 +324,7 @@ def build(root: str, kind: str):
     return ov
 
 
-def run_equivalences(ctx, kinds=("rename", "yoda", "dimkw", "commute", "size", "tempret", "unelse", "demorgan", "ifswap", "torchfn", "counter", "hoist")):
+def run_equivalences(ctx, kinds=("rename", "yoda", "dimkw", "commute", "size", "tempret", "unelse", "demorgan", "ifswap", "torchfn", "counter", "hoist", "tdget")):
     """thorough tier: the rule module must report exactly the same failing (rule, construct) pairs on each rewritten repo"""
     from ..core import Ctx
     from ..model import AnalysisError, Repo
